@@ -68,4 +68,4 @@ def is_valid(number):
 def format(number):
     """Reformat the number to the standard presentation format."""
     number = compact(number)
-    return 'NO ' + orgnr.format(number[:9]) + ' ' + number[9:]
+    return 'NO ' + orgnr.format(number[:-3]) + ' ' + number[-3:]
